@@ -374,3 +374,59 @@ pub fn gen_run(a: &Args, out: &mut Out, run0: u64, nruns: u64, npairs: u64) {
 // hit_halt() is also true when the run stopped because the MCR was cleared; the loop above
 // must go on in that case (the program has not executed HALT yet).
 fn continue_after_mcr(_m: &mut M) {}
+
+/// C34: `TimerDevice` driven directly: random exact counts and ranges, seeds,
+/// enable/disable toggles, resets; emitted in pairs with the same seed ("repro").
+pub fn emit_timer(a: &Args, out: &mut Out) {
+    use lc3_ensemble::sim::device::{ExternalDevice, TimerDevice};
+    use serde_json::json;
+    let mut rng = rng_for(a, 0xCCCC);
+    let nruns = a.get_u64("n", if a.thorough() { 600 } else { 60 });
+    let npolls = a.get_u64("polls", if a.thorough() { 400 } else { 150 });
+    let mut run = 1u64;
+    for k in 0..nruns {
+        let exact = k % 3 == 0;
+        let lo: u32 = if k % 11 == 10 { 0 } else { rng.random_range(1..9) };
+        let hi: u32 = if exact { lo } else { lo + rng.random_range(0..9) };
+        let seed: u64 = rng.random_range(0..1_000_000);
+        let vect: u8 = rng.random();
+        let prio: u8 = rng.random_range(0..12);
+        let script_seed: u64 = rng.random();
+        for pos in ["A", "B"] {
+            let mut r2 = StdRng::seed_from_u64(script_seed);
+            let mut t = TimerDevice::new(Some(seed), lo..=hi, vect, prio);
+            out.emit(json!({"ev": "New", "dom": "timer", "run": run, "pair": "repro", "pairpos": pos, "seed": seed as u32,
+                            "lo": lo, "hi": hi, "vect": vect, "prio": prio, "time": t.get_remaining()}));
+            run += 1;
+            let mut cur = (lo, hi);
+            for _ in 0..npolls {
+                match r2.random_range(0..100) {
+                    0..=3 => { let en = !t.enabled; t.enabled = en; out.emit(json!({"ev": "TEnable", "en": en as u8})); }
+                    4..=5 => { t.enabled = true; out.emit(json!({"ev": "TEnable", "en": 1})); }
+                    6 => { t.io_reset(); out.emit(json!({"ev": "TReset", "remaining": t.get_remaining()})); }
+                    7 => { t.reset_remaining(); out.emit(json!({"ev": "TReset", "remaining": t.get_remaining()})); }
+                    8 => {
+                        let nlo: u32 = r2.random_range(1..7); let nhi = nlo + r2.random_range(0..5u32);
+                        if r2.random_range(0..2) == 0 { t.set_exact(nlo); cur = (nlo, nlo); } else { t.set_range(nlo..=nhi); cur = (nlo, nhi); }
+                        out.emit(json!({"ev": "TRange", "lo": cur.0, "hi": cur.1}));
+                    }
+                    _ => {
+                        match crate::js::guard(|| t.poll_interrupt()) {
+                            Err(()) => { out.emit(json!({"ev": "Panic", "in": "poll_interrupt"})); break; }
+                            Ok(i) => {
+                                let (fired, v, p) = match &i { Some(x) => (1, int_vect(x), x.priority().unwrap_or(0)), None => (0, 0, 0) };
+                                out.emit(json!({"ev": "TPoll", "fired": fired, "vect": v, "prio": p, "remaining": t.get_remaining()}));
+                            }
+                        }
+                    }
+                }
+            }
+            out.emit(json!({"ev": "End"}));
+        }
+    }
+}
+/// The vector of an interrupt is not publicly readable; recover it through Debug formatting.
+fn int_vect(i: &lc3_ensemble::sim::device::Interrupt) -> u32 {
+    let s = format!("{i:?}");
+    s.split("vect: ").nth(1).and_then(|r| r.split(',').next()).and_then(|n| n.trim().parse().ok()).unwrap_or(999)
+}
